@@ -205,6 +205,30 @@ def _cls_pattern_overlap():
     return Overlap
 
 
+def _cls_default_empty():
+    """A model whose default is the empty object (every member optional)."""
+    class Limits(Object, default={}):
+        cpu = Property(Integer(default=1))
+        tag = Property(String())
+
+    return Limits
+
+
+def _cls_keyword_names():
+    """Members whose JSON names coincide with JSON Schema keywords (they are plain names inside the maps that hold them)."""
+    class KwInner(Object):
+        type = Property(String())
+
+    class KwNames(Object, patternProperties={"^enum": Integer()}, dependencies={"default": Element(required=["const"]), "const": ["default"], "items": KwInner}):
+        default = Property(Integer(minimum=0))
+        const = Property(KwInner)
+        enum_ = Property(Array(String()), source="enum")
+        items = Property(Boolean())
+        title = Property(Element(default=[]))
+
+    return KwNames
+
+
 def _cls_child_after_parent_serialized():
     from statham.serializers import serialize_json, serialize_python
 
@@ -228,7 +252,7 @@ def object_classes():
     return [
         ("Plain", _cls_plain), ("Renamed", _cls_renamed), ("ReqKw", _cls_required_kw), ("Kw", _cls_keywords), ("Add", _cls_additional_schema),
         ("CE", _cls_const_enum), ("Outer", _cls_nested), ("Holder", _cls_shared_twice), ("Child", _cls_inherit2), ("C3", _cls_inherit3),
-        ("D", _cls_default_obj), ("Comp", _cls_composition_props), ("Inl", _inline), ("DHolder", _cls_default_inherit), ("Overlap", _cls_pattern_overlap), ("SChild(after parent was serialized)", _cls_child_after_parent_serialized),
+        ("D", _cls_default_obj), ("Comp", _cls_composition_props), ("Inl", _inline), ("DHolder", _cls_default_inherit), ("Overlap", _cls_pattern_overlap), ("SChild(after parent was serialized)", _cls_child_after_parent_serialized), ("KwNames", _cls_keyword_names), ("Limits(default={})", _cls_default_empty),
     ]
 
 
